@@ -477,8 +477,12 @@ class RecheckCheck:
                                                     content]))
                     finally:
                         sys.stdout = so
-                text = buf.getvalue().replace(mpath, " ").replace(content,
-                                                                  " ")
+                # only the result line: the one naming both the content and
+                # the metafile (progress displays are not judged)
+                text = " ".join(
+                    ln.replace(mpath, " ").replace(content, " ")
+                    for ln in buf.getvalue().replace("\r", "\n").split("\n")
+                    if mpath in ln and content in ln)
                 self.last_printed = [float(x) for x in re.findall(
                     r"(?<![\w.])(\d+(?:\.\d+)?)\s*%", text)]
                 return ("pct", val)
